@@ -42,6 +42,7 @@ type Job struct {
 	Mut      Mut    `json:"mut"`
 	MaxNodes int    `json:"maxnodes"` // include the node table when the tree has at most this many nodes
 	Tree     bool   `json:"tree"`     // judge the tree (ref predicates, bits); false: outcome only
+	Fields   bool   `json:"fields"`   // list the numeric leaf fields of the top-level buffer (for field-targeted mutation)
 	CLI      bool   `json:"cli"`      // run the fq command line in process instead of decode.Decode
 }
 
@@ -57,6 +58,7 @@ type Res struct {
 	RefGap   string         `json:"refgap"`
 	RefBits  string         `json:"refbits"`
 	Single   bool           `json:"single"`      // the group has exactly one format
+	Fields   [][2]int64     `json:"fields"`      // [start bit, bit length] of numeric leaf fields
 	Exit     int            `json:"exit"`        // command line runs: exit status
 	Stdout   bool           `json:"stdout_tree"` // command line runs: something was printed on stdout
 	Nodes    []treelib.Node `json:"nodes"`
@@ -111,6 +113,38 @@ func mutate(b []byte, m Mut) []byte {
 				}
 			}
 			c[m.Off+i] = v
+		}
+	case "field": // overwrite the bit field [off, off+n) (bit positions) with a boundary pattern
+		for i := 0; i < m.N; i++ {
+			bit := 0
+			switch m.Val {
+			case 1: // value 1
+				if i == m.N-1 {
+					bit = 1
+				}
+			case 2: // all ones
+				bit = 1
+			case 3: // most significant bit only
+				if i == 0 {
+					bit = 1
+				}
+			case 4: // all ones but the most significant
+				if i != 0 {
+					bit = 1
+				}
+			case 5: // value 2
+				if i == m.N-2 {
+					bit = 1
+				}
+			}
+			p := m.Off + i
+			if p/8 < len(c) {
+				if bit == 1 {
+					c[p/8] |= 1 << uint(7-p%8)
+				} else {
+					c[p/8] &^= 1 << uint(7-p%8)
+				}
+			}
 		}
 	case "dup": // duplicate block [off, off+n)
 		if m.Off+m.N <= len(c) {
@@ -196,6 +230,19 @@ func work(raw json.RawMessage) any {
 	}
 	res.HasTree = true
 	res.RootErr = dv.Err != nil
+	if j.Fields {
+		res.Fields = [][2]int64{}
+		_ = dv.WalkRootPreOrder(func(v *decode.Value, _ *decode.Value, _ int, _ int) error {
+			switch v.V.(type) {
+			case *scalar.Uint, *scalar.Sint:
+				if v.Range.Len >= 1 && v.Range.Len <= 64 {
+					res.Fields = append(res.Fields, [2]int64{v.Range.Start, v.Range.Len})
+				}
+			}
+			return nil
+		})
+		return res
+	}
 	if !j.Tree {
 		return res
 	}
